@@ -1153,6 +1153,8 @@ struct Engine {
         Val r = t < 0 ? Val::top(1) : Val::cint(1, (uint64_t)t);
         Val a = getVal(S, ic->getOperand(0)), b = getVal(S, ic->getOperand(1));
         if (a.k == Val::INT) r.prov |= a.prov; if (b.k == Val::INT) r.prov |= b.prov;
+        if ((a.k == Val::INT && a.ambient) || (b.k == Val::INT && b.ambient))
+          alarm(S, "AMBIENT", I, "errno is tested before this call has stored to it: the outcome depends on the errno value the caller happens to have");
         defReg(S, I, r); ++S.stack.back().it; continue;
       }
       if (auto *sel = dyn_cast<SelectInst>(I)) {
